@@ -1319,9 +1319,34 @@ http_set_known_header(nng_http *conn, const char *key, const char *val)
 	return (false);
 }
 
+// Header names and values end up verbatim in the head we write.  A CR, LF
+// or other control character in one of them would let a caller (or whoever
+// supplied the string to the caller) end the header line or the whole head
+// early and inject header lines or entire messages (request/response
+// splitting); a colon in a name would move part of the name into the value.
+// Lines produced by our own parser never contain these characters.
+static bool
+http_header_ok(const char *key, const char *val)
+{
+	for (; *key != '\0'; key++) {
+		if (((unsigned char) *key < ' ') || (*key == ':')) {
+			return (false);
+		}
+	}
+	for (; *val != '\0'; val++) {
+		if ((unsigned char) *val < ' ') {
+			return (false);
+		}
+	}
+	return (true);
+}
+
 nng_err
 nni_http_add_header(nng_http *conn, const char *key, const char *val)
 {
+	if (!http_header_ok(key, val)) {
+		return (NNG_EINVAL);
+	}
 	if (http_set_known_header(conn, key, val)) {
 		return (NNG_OK);
 	}
@@ -1353,6 +1378,9 @@ nni_http_set_static_header(
 nng_err
 nni_http_set_header(nng_http *conn, const char *key, const char *val)
 {
+	if (!http_header_ok(key, val)) {
+		return (NNG_EINVAL);
+	}
 	if (http_set_known_header(conn, key, val)) {
 		return (0);
 	}
